@@ -41,6 +41,8 @@ def run(prog, chk):
     from props import C17 as _C17
     _C17.depth_pairing(prog, chk)  # a failed attempt (template not registered yet) must not leak a depth level: later reuses would hit the limit
     C10.retry_progress(prog, chk)  # a template in a <specs> block written after its <reuse> is found on the retry: every success counts as progress
+    _C15.stack_writers(prog, chk)
+    _C15.innermost_writes(prog, chk)  # what a template's <var> assigns stays in the instance's scope (it does not reach out into an enclosing definition)
 
 
 def template_source(prog, chk):
